@@ -13,6 +13,7 @@ type phase struct {
 	Fuzz           string // native fuzz target regexp (thorough only)
 	FuzzSeconds    int
 	ReplayVariant  bool
+	Background     bool // runs alongside the other phases (waits on timers, needs little CPU)
 }
 
 type checkCfg struct {
@@ -103,6 +104,7 @@ var checks = map[string]checkCfg{
 		Assumptions: append([]string{"a stream that simply ends inside a record does not oblige the server to close the connection before its read timeout; only complete undecodable records do", "allocation bound: 16 x bytes sent + records x (6 x 64 KiB + 64 KiB) + 8 MiB (TotalAlloc of the whole process)"}, baseAssumptions...),
 		Phases: []phase{rp("rapid", "^TestC15$", 8, 300, 16, 4000),
 			{Name: "enum", Variant: "plain", Tests: "^TestC15Enum$", QuickShards: 8, ThoroughShards: 8},
+			{Name: "stall", Variant: "plain", Tests: "^TestC15Stall$", QuickShards: 1, ThoroughShards: 1, Background: true},
 			{Name: "fuzz", Variant: "plain", ThoroughOnly: true, Fuzz: "^FuzzC15$", FuzzSeconds: 240, ThoroughShards: 1}}},
 	"C16": {Level: "exploration", Technique: "rapid schedules with harness-owned gates inside the backend + policy-version invariants; same property under the race detector",
 		Rule:        "each case is a schedule of 3-14 steps over {start a request that parks on a backend gate (read or mutating), start UpdatePolicyOptions/UpdateExportOptions to the next stamped policy, prove the drain by probing until the first retry-later reply, open a gate, probe, fresh request judged under the policy in force, rate limiting switched on under an open connection}, optionally with a 40 ms request timeout so that parked requests time out; non-trivial = an update was started while >=1 request was parked in the backend, or rate limiting was enabled under an open connection; distinct = FNV-64 of the case JSON. Schedules are sampled, not enumerated; the Go scheduler's own choices are not controlled",
@@ -114,10 +116,11 @@ var checks = map[string]checkCfg{
 		Assumptions: append([]string{"real sockets on loopback; port 111 must be bindable for the StartWithPortmapper path"}, baseAssumptions...),
 		Phases:      []phase{{Name: "enum", Variant: "plain", Tests: "^TestC28$", QuickShards: 1, ThoroughShards: 1}}},
 	"C17": {Level: "exploration", Technique: "rapid client schedules against a real loopback server; counters, EOFs and goroutine stacks as oracle; also under the race detector",
-		Rule:        "each case draws MaxConnections 1-6, IdleTimeout 100-300 ms, the start path (Listen or Export) and 3-10 steps over {dial k connections concurrently and NULL each, NULL on all, close k, idle for 2 x IdleTimeout, Stop twice, AbsfsNFS.Close twice, Unexport twice}; non-trivial = more dials than MaxConnections, or Stop with open connections; distinct = FNV-64 of the case JSON. Timing assertions are one-sided (at least 2 s slack)",
+		Rule:        "each case draws MaxConnections 1-6, IdleTimeout 100-300 ms, the start path (Listen or Export) and 3-10 steps over {dial k connections concurrently and NULL each, NULL on all, close k, idle for 2 x IdleTimeout, Stop twice, AbsfsNFS.Close twice, Unexport twice}; non-trivial = more dials than MaxConnections, or Stop with open connections; distinct = FNV-64 of the case JSON. Timing assertions are one-sided (at least 2 s slack). Export cases may park a LOOKUP inside the backend and release it while the following Close/Unexport/Stop runs. Phase unreg: connections admitted through the server's admission path are each unregistered by 2-4 goroutines released from a barrier (handler, reaper and Stop ending one connection at once), 3-12 rounds per case",
 		Assumptions: append([]string{"real sockets on loopback and real time; a busy machine can only delay, never fail, an assertion"}, baseAssumptions...),
 		Phases: []phase{rp("rapid", "^TestC17$", 8, 12, 16, 120),
-			{Name: "race", Variant: "race", Tests: "^TestC17$", QuickShards: 2, QuickChecks: 8, ThoroughShards: 8, ThoroughChecks: 60}}},
+			{Name: "race", Variant: "race", Tests: "^TestC17$", QuickShards: 2, QuickChecks: 8, ThoroughShards: 8, ThoroughChecks: 60},
+			{Name: "unreg", Variant: "plain", Tests: "^TestC17Unreg$", QuickShards: 6, QuickChecks: 300, ThoroughShards: 16, ThoroughChecks: 4000}}},
 	"C18": {Level: "exploration", Technique: "rapid timing sequences on a virtual clock vs exact (big.Rat) ideal token buckets; cleanup differential; handler integration",
 		Rule:        "phase limiter: each case draws a RateLimiterConfig (rates/bursts in {0,1,2,5,1000}, mount per minute in {0,1,7,60}, CleanupInterval in {1 s, 60 s, 1 h}) and 5-80 events (advance the virtual clock by {0, 1 ns, 1 ms, 1/3 s, 1 s, 7 s, 90 s, 2 h}, then AllowRequest(ip, conn) or AllowOperation(ip, type)) over 4 IPs x 3 connections x 4 operation types; phase handlers drives real READ/WRITE > 64 KiB, READDIR(PLUS) and MNT requests through HandleCall under the same clock; non-trivial = the sequence contains a refusal and a later admission; distinct = FNV-64 of the case JSON",
 		Assumptions: append([]string{"rate_limiter.go is compiled with time.Now/time.Since mechanically redirected to the harness clock (go/ast rewrite of the working-tree file at check time)", "decisions within 1e-6 tokens of the boundary are accepted either way (float64 implementation vs exact model)"}, baseAssumptions...),
